@@ -30,7 +30,7 @@ XML = """
   </worldbody>
   <actuator>
     <motor joint="h" gear="0.5"/>
-    <general joint="s" dyntype="{dyn}" dynprm="0.02" gainprm="2" biasprm="0 -1 -0.2"/>
+    <general joint="s" dyntype="{dyn}" dynprm="0.02" gainprm="2" biastype="affine" biasprm="0 -1 {kv}"{frc}/>
   </actuator>
 </mujoco>
 """
@@ -54,11 +54,23 @@ def _run(ctx, ncases, nsteps, rec):
       if integ == "Euler":
         fl = [["damper"], [], ["eulerdamp"], ["damper", "eulerdamp"]][(c // 4) % 4]   # the two bits that gate Euler's implicit damping, in rotation
       flags = ("<flag " + " ".join(f'{f}="disable"' for f in fl) + "/>") if fl else ""
-      xml = XML.format(dt=dt, integ=integ, cone=cone, z=float(rng.choice([0.07, 0.5])), damp=0.4 if fl else float(rng.choice([0.0, 0.4])), dyn=dyn, flags=flags)
+      # force-limited actuator with a velocity-dependent force: the implicit integrators drop its velocity derivative exactly when the
+      # force is clamped — symmetric and both asymmetric ranges, in rotation (clamped at a small lower / small upper bound)
+      frc = [' forcelimited="true" forcerange="-0.3 10"', ' forcelimited="true" forcerange="-10 0.3"', "", ' forcelimited="true" forcerange="-1 1"'][(c // 4) % 4] if integ in ("implicit", "implicitfast") else ""
+      z = float(rng.choice([0.07, 0.5]))
+      if c == 0:
+        # regression (fix 062cee5): a capsule steeper than 60 degrees resting deep in the plane, pyramidal cone
+        cone, z = "", 0.07
+      xml = XML.format(dt=dt, integ=integ, cone=cone, z=z, damp=0.4 if fl else float(rng.choice([0.0, 0.4])), dyn=dyn, flags=flags, frc=frc, kv="-20" if frc else "-0.2")
       mjm = mujoco.MjModel.from_xml_string(xml)
       mjd = mujoco.MjData(mjm)
       mjd.qvel[:] = rng.normal(size=mjm.nv)
       q = rng.normal(size=4); mjd.qpos[3:7] = q / np.linalg.norm(q)
+      if "-0.3 10" in frc or "-10 0.3" in frc:
+        # the velocity feedback (-20 qvel) drives the force into the SMALL bound of the asymmetric range
+        mjd.qvel[mjm.nv - 1] = (1 if "-0.3 10" in frc else -1) * (0.3 + abs(mjd.qvel[mjm.nv - 1]))
+      if c == 0:
+        mjd.qpos[3:7] = [0.4904392929819326, -0.10265475497216678, -0.005176708946475655, 0.8653926870880467]
       mjd.ctrl[:] = rng.normal(size=mjm.nu)
       if mjm.na:
         mjd.act[:] = rng.normal(size=mjm.na) * 0.3
@@ -109,7 +121,7 @@ RULE = ("articulated model (free + hinge + ball + slide, damping/stiffness, cont
 def correspondence(ctx):
   from harness.corr import func_corr
   fc = func_corr.run(["math.quat_integrate"], ncases=64, seed=ctx.seed)
-  acc, kc = _run(ctx, 24 if ctx.thorough else 8, 6 if ctx.thorough else 4, True)
+  acc, kc = _run(ctx, 32 if ctx.thorough else 16, 6 if ctx.thorough else 4, True)
   return result(acc, RULE, kc=kc, fc=fc)
 
 
